@@ -24,7 +24,7 @@ Reset(ev) ==
   /\ tu' = [i \in 1..Len(ev.arg.uni) |-> PathOf(ev.arg.uni[i], ev.arg.sep)]
   /\ tr' = [i \in 1..Len(ev.arg.rel) |->
               IF ev.arg.rel[i] = Self THEN Base ELSE Base \o PathOf(ev.arg.rel[i], ev.arg.sep)]
-  /\ (Base = <<>> => ev.arg.base = <<>>)
+  /\ (Base = <<>> => ev.arg.base = <<0>>)
   /\ (Base # <<>> => ev.arg.base = Join(Base, ev.arg.sep))
   /\ AnsC("init", [x |-> 0], "ok")
 
